@@ -37,6 +37,7 @@ def run(res, replay=None):
     for s in specs:
         bs = boundaries(s)
         ts = sorted(set([0.0, 0.0625, 0.5, 1.0, 2.0, 6.0] + bs + [max(bs) + 1.5]))
+        ts = ts[:1] + rng.sample(ts[1:], len(ts) - 1)      # arbitrary order after t = 0 (values are compared per position)
         grid = [i * 0.125 for i in range(0, 321)]      # for the integral of the survival function (up to t = 40)
         ops = [{'kind': 'cdf', 'ts': ts}] + [{'kind': 'cdf', 'ts': [t]} for t in ts[:3]] + \
               [{'kind': 'quantile', 'q': q} for q in qs_levels] + \
@@ -76,7 +77,7 @@ def run(res, replay=None):
                               {'spec': c['spec'], 't': t, 'expected': mv, 'observed': iv})
                 break
         for j in range(3):   # scalar-ish calls
-            if abs(r['values'][1 + j][0] - vec[j]) > 1e-12:
+            if abs(r['values'][1 + j][0] - vec[j]) > 1e-10:
                 res.violation('cdf of one time differs from the vectorised value', {'spec': c['spec'], 't': c['ts'][j]})
         for q, t, mv in zip([0.05, 0.5, 0.9, 0.99], tq, m[nts:nts + len(tq)]):
             res.count((key, 'quantile', q))
@@ -95,6 +96,9 @@ def run(res, replay=None):
         mean = r['values'][1 + 3 + 4 + 1]
         grid = r['values'][1 + 3 + 4 + 2]
         far = r['values'][1 + 3 + 4 + 3]
+        srt = sorted(zip(c['ts'], vec))
+        if any(b[1] < a[1] - 1e-12 for a, b in zip(srt, srt[1:])):
+            res.violation('cdf values of one vector call are not non-decreasing in t', {'spec': c['spec'], 'ts': c['ts'], 'cdf': vec})
         if abs(vec[0]) > 1e-12 and c['ts'][0] == 0.0:
             res.violation('cdf(0) is not 0', {'spec': c['spec'], 'cdf0': vec[0]})
         if any(b < a - 1e-12 for a, b in zip(grid, grid[1:])) or min(grid) < -1e-12 or max(grid) > 1 + 1e-12:
